@@ -46,6 +46,10 @@ def unit_cases(chk, rng, n):
     cases = []      # (coq term, description dict)
 
     def add(term, desc, nontrivial=True):
+        if str(desc.get("impl", "")).startswith("HARNESS:"):
+            # the adapter (stub objects / harness code) failed, not FORD: a harness error, never a failing input
+            chk.obligation("adapter:" + desc["f"], False, json.dumps(desc)[:600])
+            return
         cases.append((term, desc))
         chk.count(json.dumps(desc, sort_keys=True), nontrivial=nontrivial, sample=desc)
 
